@@ -115,6 +115,7 @@ def run(ctx):
     ctx.rule("R4.write-once", "in put, write_atomic is reachable only through Ok(false) of try_exists; Ok(true) returns ObjectAlreadyExists; put_overwrite has no existence check", floor=3)
     ctx.rule("R5.validate-first", "key_path dominates every filesystem call of put/put_overwrite/get/delete, fs calls only on its Ok arm; key_path/validate_key reject non-plain segments", floor=6)
     ctx.rule("R7.segmentation-agreement", "the key validator and the path builder (and the lister that turns paths back into keys) cut a key into segments with the same separator pattern: what is validated is what is joined onto the root", floor=3)
+    ctx.rule("R8.write-errors-propagate", "the result of every step of the atomic write (create, write_all, flush, the inner block, rename) reaches `?` or the function's own return value: a failed step can never be followed by a successful put", floor=7)
     ctx.rule("R6.codec-pairing", "compress exactly once on each writer's success path; decompress exactly once on get's success path", floor=3)
     segmentation_rule(ctx, prog)
 
@@ -160,6 +161,50 @@ def run(ctx):
         okp, off = inner.must_pass([0], set([aw[fl[0][0]]]) | set(resid), inner.exits(("return",)))
         ctx.ob("R1.order", "inner.return-after-flush", okp, inner.loc(),
                "every normal path to the block's completion passes the awaited flush or an error propagation (`?`)")
+
+    # ---- R8: no step's result is dropped
+    def consumed(body, poll_bb):
+        P = result_of_await(body, None, poll_bb)
+        for bb, t in body.calls():
+            if t["callee"].get("method") == "branch" and t["args"] and \
+                    ((op_place(t["args"][0]) or {}).get("l") in P or Slice(body).run(t["args"][0])["locals"] & P):
+                return True, "propagated with `?`"
+        for d in body.defs().get(0, []):
+            if d[2] == "assign":
+                rv = d[3]["rv"]
+                ops = [rv.get("op")] + list(rv.get("ops", []) or [])
+                for o in ops:
+                    if isinstance(o, dict) and Slice(body, through_calls=False).run(o)["locals"] & P:
+                        return True, "flows into the return value"
+        return False, "result is dropped (neither `?` nor returned)"
+    steps = [(inner, "create", creates), (inner, "write_all", wr), (inner, "flush", fl)]
+    aw_o8 = awaited(wa)
+    ren8 = [(bb, t) for bb, t, k in fs_calls(wa) if k == "tokio::fs::rename"]
+    steps.append((wa, "rename", ren8))
+    for body, nm, sites in steps:
+        a = aw if body is inner else aw_o8
+        for bb, t in sites:
+            if bb not in a:
+                ctx.ob("R8.write-errors-propagate", nm, False, body.loc(t["span"]), "the future is never awaited in this body")
+                continue
+            ok8, why = consumed(body, a[bb])
+            ctx.ob("R8.write-errors-propagate", nm, ok8, body.loc(t["span"]), why)
+    ip8 = [bb for bb, t in wa.calls() if t["callee"].get("method") == "poll" and
+           (t["callee"].get("resolved") or "").endswith("write_atomic::{closure#0}::{closure#0}")]
+    for pbb in ip8:
+        ok8, why = consumed(wa, pbb)
+        ctx.ob("R8.write-errors-propagate", "inner-block", ok8, wa.loc(), why)
+    for b8 in prog.bodies:
+        if not b8.coroutine or "LocalStorage as" not in b8.key or b8.key.count("{closure") != 1:
+            continue
+        meth = b8.key.split("::")[-2] if b8.key.endswith("{closure#0}") else ""
+        if meth not in ("put", "put_overwrite"):
+            continue
+        a8 = awaited(b8)
+        for bb, t in b8.calls():
+            if callee_key(t["callee"]).endswith("local::write_atomic") and bb in a8:
+                ok8, why = consumed(b8, a8[bb])
+                ctx.ob("R8.write-errors-propagate", f"{meth}.write_atomic", ok8, b8.loc(t["span"]), why)
 
     # ---- R1 outer
     ren = [(bb, t) for bb, t, k in fs_calls(wa) if k == "tokio::fs::rename"]
